@@ -58,8 +58,8 @@ def run(ctx):
     for fl in flavours(ctx):
         ctx.unit = fl
         ctx.doc('C09.5', 'native API forwarding: each public entry point of this property reaches the implementation of the same name with its parameters in order and returns its result (sibling slips such as trylock -> lock, signal -> broadcast, swapped arguments)')
-        lib.native_forwarding(ctx, 'C09.5', fl, lambda n: n.startswith(('myth_felock_', 'myth_felockattr_')), floor=6)
-        rule_init_complete(ctx, fl)
+        ctx.attempt(lib.native_forwarding, ctx, 'C09.5', fl, lambda n: n.startswith(('myth_felock_', 'myth_felockattr_')), floor=6)
+        ctx.attempt(rule_init_complete, ctx, fl)
         v = ctx.view(NATIVE, roots=['myth_felock_wait_and_lock_body', 'myth_felock_mark_and_signal_body', 'myth_felock_lock_body',
                                     'myth_felock_unlock_body', 'myth_felock_init_body', 'myth_felock_status_body'],
                      stops=LOCK + UNLOCK + CWAIT + CSIG + ('myth_mutex_init_body', 'myth_cond_init_body', 'myth_felockattr_init'), flavour=fl)
